@@ -182,11 +182,13 @@ class Fn:
         params = [c for c in d['inner'] if c['kind'] == 'ParmVarDecl']
         body = copy.deepcopy([c for c in d['inner'] if c['kind'] == 'CompoundStmt'][0])
         if len(params) != len(args): raise Unsupported('inline call arity: ' + fn)
-        ren = {}
+        ren = {}; off = {}
         for p, a in zip(params, args):
             if '*' in p['type']['qualType']:
                 b = strip(a)
                 if b['kind'] == 'UnaryOperator' and b['opcode'] == '&': b = strip(b['inner'][0])
+                if b['kind'] == 'ArraySubscriptExpr' and strip(b['inner'][0])['kind'] == 'DeclRefExpr' and lit(b['inner'][1])['kind'] == 'IntegerLiteral':
+                    off[p['name']] = int(lit(b['inner'][1])['value']); b = strip(b['inner'][0])      # &x[c]: the callee's p[i] is the caller's x[c+i]
                 if b['kind'] != 'DeclRefExpr': raise Unsupported('pointer argument shape in call to ' + fn)
                 ren[p['name']] = b['referencedDecl']['name']
             else:
@@ -201,6 +203,12 @@ class Fn:
         collect(body)
         def rename(n):
             if isinstance(n, dict):
+                if n.get('kind') == 'ArraySubscriptExpr' and off:
+                    b0 = strip(n['inner'][0]); rd0 = b0.get('referencedDecl') if b0['kind'] == 'DeclRefExpr' else None
+                    if rd0 and rd0.get('kind') == 'ParmVarDecl' and rd0['name'] in off:
+                        i0 = lit(n['inner'][1])
+                        if i0['kind'] != 'IntegerLiteral': raise Unsupported('variable index')
+                        i0['value'] = str(int(i0['value']) + off[rd0['name']])
                 if n.get('kind') == 'VarDecl' and n['name'] in local: n['name'] = pre + n['name']
                 rd = n.get('referencedDecl')
                 if rd and rd.get('kind') in ('VarDecl', 'ParmVarDecl'):
@@ -226,6 +234,8 @@ class Fn:
             b = strip(a)
             if b['kind'] == 'UnaryOperator' and b['opcode'] == '&': b = strip(b['inner'][0])
             base[pn] = b['referencedDecl']['name'] if b['kind'] == 'DeclRefExpr' else None
+            if b['kind'] == 'MemberExpr' and strip(b['inner'][0])['kind'] == 'DeclRefExpr':      # an array member of an object (r->n): element i is the member n[i]
+                base[pn] = (strip(b['inner'][0])['referencedDecl']['name'], b['name'])
             base[(pn, 'expr')] = a
         def rd(pn, kind, key):
             if kind == 'scalar': return s.ex(base[(pn, 'expr')])
@@ -235,6 +245,10 @@ class Fn:
                 f, i = key; k3 = (b, f, i)
                 if k3 not in s.written: s.mem_in.setdefault(b, set()).add((f, i))
                 return '%s_%s%s' % (b, f, '' if i < 0 else i)
+            if kind == 'arr' and isinstance(b, tuple):
+                if (b[0], b[1], key) not in s.written: s.mem_in.setdefault(b[0], set()).add((b[1], key))
+                return '%s_%s%d' % (b[0], b[1], key)
+            if isinstance(b, tuple): raise Unsupported('pointer argument shape in call to ' + fn)
             if kind == 'arr':
                 if (b, key) not in s.written: s.arr_in.setdefault(b, set()).add(key)
                 return '%s%d' % (b, key)
@@ -245,7 +259,10 @@ class Fn:
             if kind == 'ret': outs.append('_'); continue
             b = base[pn]
             if b is None: raise Unsupported('pointer argument shape in call to ' + fn)
-            if kind == 'mem':
+            if kind == 'arr' and isinstance(b, tuple):
+                s.mem_out.setdefault(b[0], set()).add((b[1], key)); s.written.add((b[0], b[1], key)); outs.append('%s_%s%d' % (b[0], b[1], key))
+            elif isinstance(b, tuple): raise Unsupported('pointer argument shape in call to ' + fn)
+            elif kind == 'mem':
                 f, i = key; s.mem_out.setdefault(b, set()).add((f, i)); s.written.add((b, f, i)); outs.append('%s_%s%s' % (b, f, '' if i < 0 else i))
             elif kind == 'arr':
                 s.outs.setdefault(b, set()).add(key); s.outs_arrays.add(b); s.written.add((b, key)); outs.append('%s%d' % (b, key))
@@ -268,6 +285,7 @@ class Fn:
                 init = [c for c in v.get('inner', []) if not c['kind'].endswith('Attr')]
                 if re.search(r'\[\d+\]$', v['type']['qualType']) and not init:
                     width(re.sub(r'\[\d+\]$', '', v['type']['qualType'])); continue      # a local array: its elements become variables when written
+                if not init and tname(v['type']['qualType']) in ('secp256k1_fe', 'secp256k1_scalar', 'secp256k1_fe_storage'): continue      # a local object: its members become variables when written
                 width(v['type']['qualType'])
                 if init:
                     i0 = init[0]
@@ -321,6 +339,23 @@ class Fn:
                 cur = s.member(lhs, write=False); nm = s.member(lhs, write=True)
             else: raise Unsupported('compound assignment target')
             s.let(nm, s.binop(op, cur, s.ex(n['inner'][1]), w, n['inner'][1])); return
+        if k == 'SwitchStmt':
+            # the compile-time constant assertion `switch(42) { case <constant>: break; default: ; }` of ASSERT_INT_CONST_AND_DO: no effect
+            def inert(x): return x['kind'] in ('BreakStmt', 'NullStmt') or (x['kind'] in ('CaseStmt', 'DefaultStmt', 'CompoundStmt') and all(inert(c) or c['kind'] == 'ConstantExpr' for c in x.get('inner', [])))
+            if lit(n['inner'][0])['kind'] == 'IntegerLiteral' and inert(n['inner'][1]): return
+            raise Unsupported('statement SwitchStmt')
+        if k == 'IfStmt' and len(n['inner']) == 2:
+            # the optional-output idiom `if (out) *out = e;` on a pointer parameter: translated for callers that pass the pointer
+            # (the branch depends on the caller's pointer only, never on data; with a null pointer the store is simply absent)
+            c = strip(n['inner'][0]); body = n['inner'][1]
+            if c['kind'] == 'DeclRefExpr' and c['referencedDecl'].get('kind') == 'ParmVarDecl' and '*' in c['type']['qualType']:
+                stmts = body.get('inner', []) if body['kind'] == 'CompoundStmt' else [body]
+                for st in stmts:
+                    l = strip(st['inner'][0]) if st['kind'] == 'BinaryOperator' and st.get('opcode') == '=' else None
+                    if not (l and l['kind'] == 'UnaryOperator' and l['opcode'] == '*' and strip(l['inner'][0]).get('referencedDecl', {}).get('name') == c['referencedDecl']['name']):
+                        raise Unsupported('statement IfStmt')
+                for st in stmts: s.stmt(st)
+                return
         raise Unsupported('statement ' + k)
     def run(s):
         s.outs_arrays = set(); s.written = set(); s.mem_in = {}; s.mem_out = {}; s.ptr_in = set(); s.ptr_out = set(); s.has_ret = False; s.returned = False
@@ -371,6 +406,35 @@ class Fn:
         o.append('Definition %s_inputs : nat := %d.' % (s.short, len(ins)))
         return '\n'.join(o).replace('(fun', '(fun').replace('=> [', '=> (cons_list [').replace(']).', ']))).') if False else '\n'.join(o), ins, outs
 
+def flatten_nested(d):
+    """members of struct type reached through a pointer parameter (r->z of a secp256k1_gej *r) become pseudo pointer parameters
+    (r_z of type secp256k1_fe *), so that the body only mentions one level of member access: &r->z ~> r_z, r->z.n[i] ~> r_z->n[i].
+    The pseudo parameters are appended to the parameter list in alphabetical order."""
+    import copy
+    d = copy.deepcopy(d); pseudo = {}
+    def smember(n):
+        n = strip(n)
+        if n['kind'] == 'MemberExpr' and n.get('isArrow') and tname(n['type']['qualType']).startswith('secp256k1_'):
+            b = strip(n['inner'][0])
+            if b['kind'] == 'DeclRefExpr' and b['referencedDecl'].get('kind') == 'ParmVarDecl':
+                nm = '%s_%s' % (b['referencedDecl']['name'], n['name']); pseudo[nm] = tname(n['type']['qualType']) + ' *'
+                return {'kind': 'DeclRefExpr', 'type': {'qualType': pseudo[nm]}, 'referencedDecl': {'kind': 'ParmVarDecl', 'name': nm, 'type': {'qualType': pseudo[nm]}}}
+        return None
+    def walk(n):
+        if isinstance(n, list): return [walk(x) for x in n]
+        if not isinstance(n, dict): return n
+        if n.get('kind') == 'UnaryOperator' and n.get('opcode') == '&':
+            r = smember(n['inner'][0])
+            if r: return r
+        if n.get('kind') == 'MemberExpr' and not n.get('isArrow'):
+            r = smember(n['inner'][0])
+            if r: n = dict(n); n['isArrow'] = True; n['inner'] = [r]; return n
+        return {k: (walk(v) if k == 'inner' else v) for k, v in n.items()}
+    d['inner'] = walk(d['inner'])
+    idx = max(i for i, c in enumerate(d['inner']) if c['kind'] == 'ParmVarDecl') + 1
+    d['inner'][idx:idx] = [{'kind': 'ParmVarDecl', 'name': nm, 'type': {'qualType': t}} for nm, t in sorted(pseudo.items())]
+    return d
+
 _AST_CACHE = {}
 def ast_of(repo, fn, defines=()):
     key = (repo, fn, tuple(defines))
@@ -397,10 +461,11 @@ def _ast_of(repo, fn, defines=()):
     finally:
         os.unlink(tu.name)
 
-def translate(repo, fn, defines=(), callees=None, requires=(), inlines=(), style='let', short=None, callee_names=None, cps=None):
+def translate(repo, fn, defines=(), callees=None, requires=(), inlines=(), style='let', short=None, callee_names=None, cps=None, flatten=False):
     """callees: {callee C name: parameter spec list} for value-returning functions already translated;
     inlines: names of functions (same subset) whose calls are translated in place"""
     d = ast_of(repo, fn, defines)
+    if flatten: d = flatten_nested(d)
     short = short or fn.replace('secp256k1_', '')
     f = Fn(d, short, callees, {g: ast_of(repo, g, defines) for g in inlines}, style); f.callee_names = callee_names or {}; f.cps = cps or {}
     text, ins, outs = f.run()
